@@ -159,6 +159,19 @@ Theorem C28_starts_with_ci_spec : forall s p : bytes,
 Proof. exact starts_with_ci_spec. Qed.
 Print Assumptions C28_starts_with_ci_spec.
 
+(* on arbitrary bytes (the Chars iterator yields Err(byte) for invalid UTF-8, two such items match iff equal): a
+   case-sensitive match of a valid needle is a case-insensitive match, whatever the haystack; on valid UTF-8 the
+   iterator yields exactly the chars *)
+Theorem C28_starts_with_cs_implies_ci : forall s p : bytes,
+  valid_utf8 p = true -> starts_with_cs s p = true -> starts_with_ci s p = true.
+Proof. exact starts_with_cs_ci. Qed.
+Print Assumptions C28_starts_with_cs_implies_ci.
+
+Theorem C28_chars_iterator_valid : forall s : bytes,
+  valid_utf8 s = true -> ci_items s = map CIok (utf8_chars s).
+Proof. exact ci_items_valid. Qed.
+Print Assumptions C28_chars_iterator_valid.
+
 (* ======================= truncate / strlen ======================= *)
 
 (* chars(truncate(s, limit, suffix)) <= max(limit, 0) + chars(suffix) *)
@@ -312,6 +325,9 @@ Example C28_nonvacuous :
      = [(hx "61", VObj [(hx "78", VInt 1); (hx "79", VInt 2)])]
   /\ KnownC28_sw_zip (hx "c389c39f") (hx "c3a9") = false /\ starts_with_ci (hx "c389c39f") (hx "c3a9") = true
   /\ KnownC28_sw_zip (hx "e284aa") (hx "6b6b") = true
+  (* invalid UTF-8: byte-wise on the invalid bytes, case-insensitive on the rest; a needle ending inside a char *)
+  /\ starts_with_ci (hx "ff6162") (hx "ff41") = true /\ starts_with_ci (hx "6162") (hx "41ff") = false
+  /\ starts_with_ci (hx "c3") (hx "c3") = true /\ starts_with_ci (hx "c3a9") (hx "c3") = false
   /\ snakecase (hx "763252656c6561736520584d4c48747470") = hx "765f325f72656c656173655f786d6c5f68747470"
   /\ NoDup (map fst [(hx "61", VObj [(hx "79", VInt 2)])]).
 Proof.
